@@ -539,7 +539,7 @@ func (fr *frame) execConvert(st *state, v *ssa.Convert) {
 	case from == "Int" && to == "Str":
 		// string(rune) / string(byte)
 		r := sc.declare("runestr", "Str")
-		sc.assume(fmt.Sprintf("(and (= (slo %s) 0) (>= (shi %s) 1) (<= (shi %s) 4) (=> (and (>= %s 0) (< %s 128)) (and (= (shi %s) 1) (= (sat %s 0) %s))) (=> (>= %s 128) (and (>= (sat %s 0) 128) (>= (shi %s) 2))))", r, r, r, x, x, r, r, x, x, r, r))
+		sc.assume(fmt.Sprintf("(and (= (slo %s) 0) (>= (shi %s) 1) (<= (shi %s) 4) (=> (and (>= %s 0) (< %s 128)) (and (= (shi %s) 1) (= (sat %s 0) %s))) (=> (or (< %s 0) (>= %s 128)) (and (>= (sat %s 0) 128) (>= (sat %s 1) 128) (>= (sat %s 2) 128) (>= (sat %s 3) 128) (>= (shi %s) 2))))", r, r, r, x, x, r, r, x, x, x, r, r, r, r, r))
 		fr.regs[v] = r
 	case from == "Str" && to == "Slice":
 		// []byte(s) or []rune(s)
@@ -693,6 +693,7 @@ func (fr *frame) execRange(st *state, v *ssa.Range) {
 	fc := fr.fc
 	r := fr.freshRef(st, "iter")
 	fr.regs[v] = r
+	fr.lastRange = r
 	fc.hset(st, "IT", app("store", fc.hget(st, "IT"), r, "0"))
 	ri := &rangeInfo{typ: v.X.Type()}
 	if _, ok := v.X.Type().Underlying().(*types.Map); ok {
@@ -726,8 +727,8 @@ func (fr *frame) execNext(st *state, v *ssa.Next) {
 		r := sc.declare("rune", "Int")
 		b0 := fmt.Sprintf("(sat %s %s)", s, pos)
 		u.global("(declare-fun utf8_valid_at ((Array Int Int) Int Int) Bool)")
-		sc.assume(implies(ok, fmt.Sprintf("(and (>= %s 1) (<= %s 4) (<= (+ %s %s) (slen %s)) (>= %s 0) (<= %s 1114111) (<= 0 %s) (<= %s 255) (=> (< %s 128) (and (= %s 1) (= %s %s))) (=> (>= %s 128) (>= %s 128)) (=> (> %s 1) (and (>= %s 128) (not (= %s 65533)))) (not (and (>= %s 55296) (<= %s 57343))))",
-			w, w, pos, w, s, r, r, b0, b0, b0, w, r, b0, b0, r, w, r, r, r, r)))
+		sc.assume(implies(ok, fmt.Sprintf("(and (>= %s 1) (<= %s 4) (<= (+ %s %s) (slen %s)) (>= %s 0) (<= %s 1114111) (<= 0 %s) (<= %s 255) (=> (< %s 128) (and (= %s 1) (= %s %s))) (=> (>= %s 128) (>= %s 128)) (=> (> %s 1) (>= %s 128)) (=> (and (>= %s 128) (= %s 1)) (= %s 65533)) (not (and (>= %s 55296) (<= %s 57343))))",
+			w, w, pos, w, s, r, r, b0, b0, b0, w, r, b0, b0, r, w, r, b0, w, r, r, r)))
 		fc.hset(st, "IT", app("store", fc.hget(st, "IT"), it, ite(ok, "(+ "+pos+" "+w+")", pos)))
 		fr.tuples[v] = []string{ok, pos, r}
 		fr.fc.inputs[fmt.Sprintf("rune@%s", rng.Name())] = r
